@@ -2,9 +2,7 @@ package main
 
 import "verifharness/internal/vh"
 
-func runAggr(f []string) string                   { return "todo" }
 func runEngine(f []string) string                 { return "todo" }
 func runSignal(f []string) string                 { return "todo" }
-func genAggr(r *vh.Rand, tier string) []string   { return nil }
 func genEngine(r *vh.Rand, tier string) []string { return nil }
 func genSignal(r *vh.Rand, tier string) []string { return nil }
